@@ -89,8 +89,13 @@ impl Tally {
 fn drain(f: &mut dyn Read) -> &'static str {
     let mut buf = [0u8; 8192];
     let mut n = 0u64;
+    // (read sizes vary: a short first read, one around the cipher block size, then large ones)
+    let sizes = [10usize, 16, 1, 33, 8192];
+    let mut i = 0usize;
     loop {
-        match f.read(&mut buf) {
+        let want = sizes[i.min(sizes.len() - 1)];
+        i += 1;
+        match f.read(&mut buf[..want]) {
             Ok(0) => return "ok",
             Ok(k) => {
                 n += k as u64;
